@@ -39,6 +39,15 @@ def skip(n):
     return n
 
 
+def text_key(a):
+    return (1 if _LIT.match(a) else 0, a.replace("nano::", ""))
+
+
+def operand_key(n):
+    """ordering key of an operand of a built-in commutative operator (see Function._index): literals last, then by text"""
+    return text_key(pp(n))
+
+
 def pp(n, ren=None, depth=0):
     if n is None:
         return "<none>"
@@ -78,10 +87,8 @@ def pp(n, ren=None, depth=0):
         # are ordered (literals last, then by text), so that flipping a comparison - a behaviour-preserving edit - does not change the text
         if op in (">", ">="):
             return "(%s %s %s)" % (b, "<" if op == ">" else "<=", a)
-        if op in ("==", "!="):
-            ka = (1 if _LIT.match(a) else 0, a.replace("nano::", ""))
-            kb = (1 if _LIT.match(b) else 0, b.replace("nano::", ""))
-            if kb < ka:
+        if op in ("==", "!=", "+", "*"):
+            if text_key(b) < text_key(a):
                 a, b = b, a
         return "(%s %s %s)" % (a, op, b)
     if k == "cond":
@@ -180,15 +187,14 @@ def canon_text(s):
                 depth -= s[j] in ")]}"
                 j += 1
             inner = canon_text(s[i + 1:j - 1])
-            pos, op = _split_top(inner, (">=", "<=", "==", "!=", ">", "<"))
+            pos, op = _split_top(inner, (">=", "<=", "==", "!=", ">", "<", "+", "*"))
             # only a *binary* group: nothing but the two operands at top level (function-call argument lists contain ", ")
             if pos is not None and _split_top(inner, ("&&", "||", "?"))[0] is None and ", " not in _strip_nested(inner) and (i == 0 or not (s[i - 1].isalnum() or s[i - 1] in "_>)]")):
                 a, b = inner[:pos], inner[pos + len(op) + 2:]
                 if op in (">", ">="):
                     a, b, op = b, a, "<" if op == ">" else "<="
-                elif op in ("==", "!="):
-                    ka, kb = (1 if _LIT.match(a) else 0, a.replace("nano::", "")), (1 if _LIT.match(b) else 0, b.replace("nano::", ""))
-                    if kb < ka:
+                elif op in ("==", "!=", "+", "*"):
+                    if text_key(b) < text_key(a):
                         a, b = b, a
                 inner = "%s %s %s" % (a, op, b)
             out.append("(" + inner + ")")
